@@ -202,7 +202,7 @@ def gen_world(i, R, rng, sw):
     lang = rng.choice(LANGS)
     cid = rng.choice(G.ids_for(lang))
     heavy = [h for h in G.HEAVY if h.startswith(lang + ".")]
-    is_heavy = bool(heavy) and rng.random() < 0.02
+    is_heavy = bool(heavy) and rng.random() < 0.05
     if is_heavy:
         cid = rng.choice(heavy)          # ~1000 nested function definitions: seconds per analysis
     d = rng.choice(["", "src", "lib/in/ner", "src/deep"])
